@@ -197,6 +197,7 @@ class Verdict:
         self.violations = []  # (description, replay_path)
         self.known_hit = []
         self.notes = []
+        self.pending = []   # inconclusive parts
 
     def add_tlc(self, res, name=None):
         self.cov["states"] += res.distinct
@@ -216,7 +217,21 @@ class Verdict:
             json.dump(dict(property=self.pid, what=desc, replay=replay_obj), f, indent=1, default=str)
         self.violations.append((desc, path))
 
+    def attempt(self, what, fn, *a, **kw):
+        """run one part of a check; if the part is inconclusive (dead driver, tool failure) remember it and go on: violations found
+        by the other parts are still reported, and only a run without violations ends inconclusive"""
+        try:
+            return fn(*a, **kw)
+        except Inconclusive as e:
+            log("[%s] part '%s' inconclusive: %s" % (self.pid, what, str(e)[:600].replace("\n", " | ")))
+            self.pending.append("%s: %s" % (what, str(e)[:3000]))
+            return None
+
     def finish(self):
+        if self.pending and not self.violations:
+            raise Inconclusive("part(s) of the check were inconclusive and no violation was found by the others:\n" + "\n".join(self.pending))
+        if self.pending:
+            self.notes.append("inconclusive parts (a violation was found by other parts): " + "; ".join(x[:200] for x in self.pending))
         os.makedirs(EVIDENCE, exist_ok=True)
         ev = dict(property_id=self.pid, tier=self.tier, seed=seed(), level=self.level, coverage=self.cov,
                   assumptions=self.assumptions, wall_s=round(time.time() - self.t0, 2), violations=len(self.violations))
